@@ -985,6 +985,7 @@ extern "C" int gettimeofday( struct timeval* tv, void* tz)
    return fn( tv, tz);
 }
 
+#ifndef SIMFS_WITH_SCHED   // with the thread scheduler: its simulated clock answers clock_gettime()
 extern "C" int clock_gettime( clockid_t clk, struct timespec* ts)
 {
    if (g_ready && w().clock_on && clk == CLOCK_REALTIME)
@@ -997,6 +998,8 @@ extern "C" int clock_gettime( clockid_t clk, struct timespec* ts)
    return fn( clk, ts);
 }
 
+#endif
+
 extern "C" pid_t getpid( void)
 {
    if (g_ready && w().pid > 0)
@@ -1005,6 +1008,7 @@ extern "C" pid_t getpid( void)
    return fn();
 }
 
+#ifndef SIMFS_WITH_SCHED   // no step budget in scheduler builds
 // ----- process termination inside a run becomes a run outcome
 
 namespace sim { namespace fs { std::string  g_last_assert; } }
@@ -1033,3 +1037,4 @@ extern "C" void abort( void)
    fn();
    _exit( 134);
 }
+#endif
